@@ -187,15 +187,10 @@ class Bench:
         self.tasks[name] = tasks._PyTask(coro, loop=self.loop, name=name, eager_start=True)
 
     def phase_call(self, name, coro, ev):
-        """a phase call is either refused at once by the state guard (RuntimeError; counted) or becomes THE task of
-        that phase; a duplicate call while the first is still in progress is outside the scenarios"""
+        """a phase call is either refused at once by the guard (RuntimeError; counted) or becomes THE task of that phase.
+        A duplicate call while the first is still in progress is made like any other: "a connection object can be used for
+        one connect attempt only", so it must be refused as well (one accepted is recorded in extra_accepted)"""
         t = self.tasks.get(name)
-        if t is not None and not t.done():
-            coro.close()
-            return
-        if t is not None and name == "finish" and STATE[self.conn.connection_state] == "sockOpen":
-            coro.close()   # (finish refused earlier, now acceptable: keep one task per phase, skip)
-            return
         nt = tasks._PyTask(coro, loop=self.loop, name=name if t is None else name + "#again", eager_start=True)
         if nt.done() and not nt.cancelled() and isinstance(nt.exception(), RuntimeError):
             self.refused += 1
